@@ -210,6 +210,16 @@ def tableC04 : List (String × Rd String) := [
     -- `Empirical::new` sorts the data (empirical.rs:67-70)
     let sorted := (xs.toArray.qsort (fun a b => a < b)).toList
     pure (wrOutcome wrF (fun _ => true) (empiricalDraw fuelC04 sorted ws))),
+  ("hist.UnitPowerLaw", do  -- construct(alpha1); draw(w0); set_alpha(alpha2); draw(w1); invcdf(0.5): the caches are inlined in the model
+    let _ ← Wire.next; let a1 ← rdF; let a2 ← rdF; let ws ← rdL rdN
+    let d1 : Gen.UnitPowerLaw Float := { alpha := a1 }
+    let w0 := ws.headD 0
+    let w1 := (ws.drop 1).headD w0
+    match Gen.UnitPowerLaw.set_alpha d1 a2 with
+    | .ok d2 =>
+      pure (wrF (unitPowerLawDraw d1 (open01 w0)) ++ " " ++ wrF (unitPowerLawDraw d2 (open01 w1)) ++ " " ++
+        wrF (Gen.UnitPowerLaw.invcdf_real d2 0.5))
+    | .error _ => pure "PANIC"),
   ("fma", do
     let _ ← Wire.next; let a ← rdF; let b ← rdF; let c ← rdF
     pure (wrF (fmaF a b c)))
